@@ -1,17 +1,19 @@
--- ISV/JFA enrolment + scoring kernel probe (import-free, polymorphic)
 import BobEM.Model.Basic
+import BobEM.Model.LinearScoring
+/-!
+ISV / JFA enrolment and scoring kernel (`factor_analysis.py`: `_compute_fn_x_ih`,
+`_compute_id_plus_u_prod_ih`, `compute_latent_x`, `update_z`, `update_y`, `estimate_x`,
+`estimate_ux`, `ISVMachine.enroll/score/transform`, `JFAMachine.enroll/score`).
+
+Supervectors are indexed by (component, feature).  ISV is the case `rV = 0` (no speaker factors:
+every sum over `Fin 0` is empty, as `V = 0`, `latent_y = None` in the code).
+-/
 open BobEM (sumFin lsum)
 
 namespace BobEM.FA
-/-- Tabulate a function once (semantically the identity; operationally a cache). Without it a
-`Fin n → α` closure is re-evaluated at every access and iterative models take exponential time. -/
-def tab {n : Nat} {β : Type} (f : Fin n → β) : Fin n → β :=
-  let a := Array.ofFn f
-  fun i => a[i.val]'(by simp [a])
-def tab2 {n m : Nat} {β : Type} (f : Fin n → Fin m → β) : Fin n → Fin m → β :=
-  tab (fun i => tab (f i))
 section
-variable {α : Type} [Add α] [Mul α] [Sub α] [Div α] [Neg α] [OfNat α 0] [OfNat α 1] [LT α] [DecidableLT α] [LinAlg α]
+variable {α : Type} [Add α] [Mul α] [Sub α] [Div α] [Neg α] [OfNat α 0] [OfNat α 1] [LT α] [DecidableLT α]
+  [LE α] [DecidableLE α] [LinAlg α]
 
 structure Model (C D rU rV : Nat) (α : Type) where
   m : Fin C → Fin D → α        -- ubm means
@@ -19,18 +21,21 @@ structure Model (C D rU rV : Nat) (α : Type) where
   U : Fin C → Fin D → Fin rU → α
   V : Fin C → Fin D → Fin rV → α
   Dd : Fin C → Fin D → α
-structure St (C D : Nat) (α : Type) where   -- the part of GMMStats used here
+/-- the part of `GMMStats` used here -/
+structure St (C D : Nat) (α : Type) where
   n : Fin C → α
   f : Fin C → Fin D → α
   t : α
 
 variable {C D rU rV : Nat}
 def eye (r : Nat) : Fin r → Fin r → α := fun a b => if a = b then 1 else 0
-/-- Σ_c n_c · L_cᵀ Σ_c⁻¹ L_c for a loading L -/
+/-- Σ_c n_c · L_cᵀ Σ_c⁻¹ L_c for a loading L (`UProd`/`VProd` weighted by the counts) -/
 def prodN {r : Nat} (M : Model C D rU rV α) (L : Fin C → Fin D → Fin r → α) (n : Fin C → α) : Fin r → Fin r → α :=
   fun a b => sumFin C fun c => n c * sumFin D fun d => L c d a * L c d b / M.s c d
+/-- `np.linalg.inv(I + Σ_c n_c L_cᵀ Σ_c⁻¹ L_c)` -/
 def idPlusInv {r : Nat} (M : Model C D rU rV α) (L : Fin C → Fin D → Fin r → α) (n : Fin C → α) : Fin r → Fin r → α :=
   LinAlg.inv r fun a b => eye r a b + prodN M L n a b
+/-- `L @ x` as a (C, D) supervector -/
 def apply {r : Nat} (L : Fin C → Fin D → Fin r → α) (x : Fin r → α) : Fin C → Fin D → α :=
   fun c d => sumFin r fun a => L c d a * x a
 def mulVec {r : Nat} (P : Fin r → Fin r → α) (v : Fin r → α) : Fin r → α := fun a => sumFin r fun b => P a b * v b
@@ -39,7 +44,7 @@ def vecMul {r : Nat} (v : Fin r → α) (P : Fin r → Fin r → α) : Fin r →
 def projT {r : Nat} (M : Model C D rU rV α) (L : Fin C → Fin D → Fin r → α) (g : Fin C → Fin D → α) : Fin r → α :=
   fun a => sumFin C fun c => sumFin D fun d => L c d a / M.s c d * g c d
 
-/-- _compute_fn_x_ih + compute_latent_x for one session -/
+/-- `_compute_fn_x_ih` + `compute_latent_x` for one session -/
 def latentX (M : Model C D rU rV α) (st : St C D α) (y : Fin rV → α) (z : Fin C → Fin D → α) : Fin rU → α :=
   let fn := fun c d => st.f c d - st.n c * (M.m c d + M.Dd c d * z c d) - st.n c * apply M.V y c d
   mulVec (idPlusInv M M.U st.n) (projT M M.U fn)
@@ -50,51 +55,115 @@ def fAcc (sts : List (St C D α)) : Fin C → Fin D → α := fun c d => lsum (s
 def uxTerm (M : Model C D rU rV α) (sts : List (St C D α)) (xs : List (Fin rU → α)) : Fin C → Fin D → α :=
   fun c d => lsum ((sts.zip xs).map fun (s, x) => s.n c * apply M.U x c d)
 
-/-- update_z (one class) -/
+/-- `update_z` (one class) -/
 def updateZ (M : Model C D rU rV α) (sts : List (St C D α)) (xs : List (Fin rU → α)) (y : Fin rV → α) : Fin C → Fin D → α :=
   fun c d =>
     let na := nAcc sts c
     let fn := fAcc sts c d - na * (M.m c d + apply M.V y c d) - uxTerm M sts xs c d
     (1 / (1 + M.Dd c d / M.s c d * M.Dd c d * na)) * (M.Dd c d / M.s c d) * fn
 
-/-- update_y (one class), with the D7 sign repair -/
-def updateY (M : Model C D rU rV α) (sts : List (St C D α)) (xs : List (Fin rU → α)) (z : Fin C → Fin D → α) : Fin rV → α :=
+/-- `update_y` (one class): conditions on `m + D z` (the pinned commit had `m − D z`: defect D7).
+`sgn` is the sign applied to `D z` (`1` = property, `-1` = pinned commit). -/
+def updateYG (sgn : α) (M : Model C D rU rV α) (sts : List (St C D α)) (xs : List (Fin rU → α)) (z : Fin C → Fin D → α) : Fin rV → α :=
   let na := nAcc sts
-  let fn := fun c d => fAcc sts c d - na c * (M.m c d + M.Dd c d * z c d) - uxTerm M sts xs c d
+  let fn := fun c d => fAcc sts c d - na c * (M.m c d + sgn * (M.Dd c d * z c d)) - uxTerm M sts xs c d
   vecMul (projT M M.V fn) (idPlusInv M M.V na)
+def updateY (M : Model C D rU rV α) (sts : List (St C D α)) (xs : List (Fin rU → α)) (z : Fin C → Fin D → α) : Fin rV → α :=
+  updateYG 1 M sts xs z
 
-/-- np.ndarray ↔ `Vector`: values carried from one iteration to the next are materialised -/
-def fn1 {n : Nat} (v : Vector α n) : Fin n → α := fun i => v[i]
-def fn2 {n m : Nat} (v : Vector (Vector α m) n) : Fin n → Fin m → α := fun i j => v[i][j]
+/-- latent state of an enrolment: speaker factors, one channel factor per session, residual offset -/
+structure Lat (C D rU rV : Nat) (α : Type) where
+  y : Fin rV → α
+  xs : List (Fin rU → α)
+  z : Fin C → Fin D → α
 
-def jfaEnrollV (M : Model C D rU rV α) (sts : List (St C D α)) :
-    Nat → Vector α rV × List (Vector α rU) × Vector (Vector α D) C
-  | 0 => (Vector.ofFn fun _ => 0, sts.map fun _ => Vector.ofFn fun _ => 0, Vector.ofFn fun _ => Vector.ofFn fun _ => 0)
-  | k+1 =>
-    let (_, xs, z) := jfaEnrollV M sts k
-    let y' : Vector α rV := Vector.ofFn (updateY M sts (xs.map fn1) (fn2 z))
-    let xs' : List (Vector α rU) := sts.map fun s => Vector.ofFn (latentX M s (fn1 y') (fn2 z))
-    let z' : Vector (Vector α D) C :=
-      Vector.ofFn fun c => Vector.ofFn fun d => updateZ M sts (xs'.map fn1) (fn1 y') c d
-    (y', xs', z')
+def Lat.zero (nSessions : Nat) : Lat C D rU rV α :=
+  { y := fun _ => 0, xs := List.replicate nSessions fun _ => 0, z := fun _ _ => 0 }
 
-def jfaEnroll (M : Model C D rU rV α) (sts : List (St C D α)) (k : Nat) :
-    (Fin rV → α) × List (Fin rU → α) × (Fin C → Fin D → α) :=
-  let r := jfaEnrollV M sts k
-  (fn1 r.1, r.2.1.map fn1, fn2 r.2.2)
+/-- one enrolment iteration: `y`, then every `x_h`, then `z` (for ISV, `rV = 0`, the first is void) -/
+def sweep (M : Model C D rU rV α) (sts : List (St C D α)) (l : Lat C D rU rV α) : Lat C D rU rV α :=
+  let y' := updateY M sts l.xs l.z
+  let xs' := sts.map fun s => latentX M s y' l.z
+  { y := y', xs := xs', z := updateZ M sts xs' y' }
 
-/-- estimate_x on the pooled probe -/
+/-- `JFAMachine.enroll` / `ISVMachine.enroll` with `enroll_iterations = k` (Spec form) -/
+def enroll (M : Model C D rU rV α) (sts : List (St C D α)) : Nat → Lat C D rU rV α
+  | 0 => Lat.zero sts.length
+  | k+1 => sweep M sts (enroll M sts k)
+
+/-! #### Exec form: the latent arrays are ndarrays, i.e. `Vector`s evaluated once per update -/
+structure LatV (C D rU rV : Nat) (α : Type) where
+  y : Vector α rV
+  xs : List (Vector α rU)
+  z : Vector (Vector α D) C
+def LatV.ofV (l : LatV C D rU rV α) : Lat C D rU rV α :=
+  { y := fun i => l.y[i], xs := l.xs.map fun v => fun i => v[i], z := fun c d => l.z[c][d] }
+def Lat.toV (l : Lat C D rU rV α) : LatV C D rU rV α :=
+  { y := Vector.ofFn l.y, xs := l.xs.map Vector.ofFn, z := Vector.ofFn fun c => Vector.ofFn (l.z c) }
+def sweepV (M : Model C D rU rV α) (sts : List (St C D α)) (l : LatV C D rU rV α) : LatV C D rU rV α :=
+  let y' : Vector α rV := Vector.ofFn (updateY M sts l.ofV.xs l.ofV.z)
+  let xs' : List (Vector α rU) := sts.map fun s => Vector.ofFn (latentX M s (fun i => y'[i]) l.ofV.z)
+  { y := y', xs := xs',
+    z := Vector.ofFn fun c => Vector.ofFn fun d => updateZ M sts (xs'.map fun v => fun i => v[i]) (fun i => y'[i]) c d }
+def enrollV (M : Model C D rU rV α) (sts : List (St C D α)) : Nat → LatV C D rU rV α
+  | 0 => (Lat.zero sts.length).toV
+  | k+1 => sweepV M sts (enrollV M sts k)
+
+/-! #### scoring -/
+/-- `estimate_x` on the pooled probe -/
 def estimateX (M : Model C D rU rV α) (sts : List (St C D α)) : Fin rU → α :=
   let n := nAcc sts
   let fn := fun c d => fAcc sts c d - M.m c d * n c
   mulVec (idPlusInv M M.U n) (projT M M.U fn)
+/-- `estimate_ux` -/
+def estimateUx (M : Model C D rU rV α) (sts : List (St C D α)) : Fin C → Fin D → α := apply M.U (estimateX M sts)
 
-/-- JFAMachine.score: linear scoring of m+Vy+Dz against the pooled probe with offset U x̂, frame-normalised -/
-def jfaScore (M : Model C D rU rV α) (y : Fin rV → α) (z : Fin C → Fin D → α) (sts : List (St C D α)) : α :=
-  let x := tab (estimateX M sts)
-  let n := tab (nAcc sts); let f := tab2 (fAcc sts); let t := lsum (sts.map (·.t))
+def St.add (a b : St C D α) : St C D α := { n := fun c => a.n c + b.n c, f := fun c d => a.f c d + b.f c d, t := a.t + b.t }
+/-- `sum(data[1:], start=data[0])` (a single statistic is used as it is) -/
+def pooled : List (St C D α) → St C D α
+  | [] => { n := fun _ => 0, f := fun _ _ => 0, t := 0 }
+  | s :: rest => rest.foldl St.add s
+/-- the client mean `m + V y + D z` -/
+def clientMean (M : Model C D rU rV α) (y : Fin rV → α) (z : Fin C → Fin D → α) : Fin C → Fin D → α :=
+  fun c d => apply M.V y c d + M.Dd c d * z c d + M.m c d
+
+/-- `JFAMachine.score` / `ISVMachine.score`: frame-normalised linear score of the client mean
+against the pooled probe with the UBM means shifted by the probe's own channel offset `U x̂` -/
+def score (M : Model C D rU rV α) (y : Fin rV → α) (z : Fin C → Fin D → α) (sts : List (St C D α)) (eps : α) : α :=
+  let p := pooled sts
+  linearScore M.m M.s (clientMean M y z) { n := p.n, sumPx := p.f, t := p.t } (estimateUx M sts) true eps
+
+/-! #### array-level entry points: `acc` stands for `ubm.acc_stats` -/
+def scoreUsingArray {β : Type} (acc : β → St C D α) (M : Model C D rU rV α) (y : Fin rV → α) (z : Fin C → Fin D → α)
+    (datas : List β) (eps : α) : α := score M y z (datas.map acc) eps
+def enrollUsingArray {β : Type} (acc : β → St C D α) (M : Model C D rU rV α) (X : β) (k : Nat) : Lat C D rU rV α :=
+  enroll M [acc X] k
+/-- `ISVMachine.transform` (the pinned commit passed the bare statistic: defect D13) -/
+def transform {β : Type} (acc : β → St C D α) (M : Model C D rU rV α) (X : β) : Fin C → Fin D → α :=
+  estimateUx M [acc X]
+end
+end BobEM.FA
+
+namespace BobEM.FA
+section
+variable {α : Type} [Add α] [Mul α] [Sub α] [Div α] [Neg α] [OfNat α 0] [OfNat α 1] [OfNat α 2] {C D rU rV : Nat}
+
+/-- offset of session `h` from the UBM mean: `V y + U x_h + D z` -/
+def offset (M : Model C D rU rV α) (y : Fin rV → α) (x : Fin rU → α) (z : Fin C → Fin D → α) : Fin C → Fin D → α :=
+  fun c d => apply M.V y c d + apply M.U x c d + M.Dd c d * z c d
+
+/-- data term of one session: `Σ_cd [ (F − N m) o − ½ N o² ] / σ` (the frames' Gaussian exponent
+up to a constant, in terms of the session's statistics) -/
+def sessionTerm (M : Model C D rU rV α) (st : St C D α) (o : Fin C → Fin D → α) : α :=
   sumFin C fun c => sumFin D fun d =>
-    ((M.m c d + apply M.V y c d + M.Dd c d * z c d) - M.m c d) / M.s c d *
-      ((f c d - n c * (M.m c d + apply M.U x c d)) / t)
+    ((st.f c d - st.n c * M.m c d) * o c d - (1 / 2 : α) * (st.n c * (o c d * o c d))) / M.s c d
+
+/-- joint log-posterior of the enrolment data and the latent factors (up to an additive constant)
+under `mean = m + V y + U x_h + D z`, standard-normal priors, UBM covariances -/
+def logPost (M : Model C D rU rV α) (sts : List (St C D α)) (l : Lat C D rU rV α) : α :=
+  -((1 / 2 : α) * sumFin rV fun a => l.y a * l.y a)
+  - (1 / 2 : α) * lsum (l.xs.map fun x => sumFin rU fun a => x a * x a)
+  - (1 / 2 : α) * (sumFin C fun c => sumFin D fun d => l.z c d * l.z c d)
+  + lsum ((sts.zip l.xs).map fun (st, x) => sessionTerm M st (offset M l.y x l.z))
 end
 end BobEM.FA
